@@ -55,4 +55,8 @@ def run(task):
         r = c12prog.run_program(task["name"], task["argv"])
         r.pop("partial", None)
         return r
+    if op == "cli":
+        from impl import c12prog
+
+        return c12prog.run_cli(task["argv"])
     raise ValueError(op)
